@@ -60,6 +60,18 @@ template <typename CharT, typename SizeT>
     return dest;
 }
 
+// Narrow characters are ordered as unsigned char, wide characters by their
+// value. Never subtracts wide characters, the difference can overflow.
+template <typename CharT>
+[[nodiscard]] constexpr auto strcmp_order(CharT lhs, CharT rhs) noexcept -> int
+{
+    if constexpr (sizeof(CharT) == 1) {
+        return static_cast<int>(static_cast<unsigned char>(lhs)) - static_cast<int>(static_cast<unsigned char>(rhs));
+    } else {
+        return static_cast<int>(lhs > rhs) - static_cast<int>(lhs < rhs);
+    }
+}
+
 template <typename CharT>
 [[nodiscard]] constexpr auto strcmp(CharT const* lhs, CharT const* rhs) -> int
 {
@@ -68,7 +80,7 @@ template <typename CharT>
             break;
         }
     }
-    return static_cast<int>(*lhs) - static_cast<int>(*rhs);
+    return strcmp_order<CharT>(*lhs, *rhs);
 }
 
 template <typename CharT, typename SizeT>
@@ -82,7 +94,7 @@ template <typename CharT, typename SizeT>
         u1 = static_cast<CharT>(*lhs++);
         u2 = static_cast<CharT>(*rhs++);
         if (u1 != u2) {
-            return static_cast<int>(u1 - u2);
+            return strcmp_order<CharT>(u1, u2);
         }
         if (u1 == CharT(0)) {
             return 0;
